@@ -59,7 +59,26 @@ fn scratch_dir() -> std::path::PathBuf {
     let base = std::env::var("VERIF_SCRATCH").unwrap_or_else(|_| if std::path::Path::new("/dev/shm").is_dir() { "/dev/shm".into() } else { std::env::temp_dir().to_string_lossy().into_owned() });
     let d = std::path::PathBuf::from(base).join(format!("verif-c03-{}", std::process::id()));
     let _ = std::fs::create_dir_all(&d);
+    for (name, content) in include_files() {
+        let _ = std::fs::write(d.join(name), content);
+    }
     d
+}
+
+/// fixed files next to the scratch main file: the targets of the "include trees" family
+fn include_files() -> Vec<(&'static str, String)> {
+    let meas = |n: &str, d: &str| format!("/begin MEASUREMENT {n} \"{d}\" UBYTE NO_COMPU_METHOD 0 0 0 255\n/end MEASUREMENT\n");
+    vec![
+        ("inc_short.a2l", "/* s */\n".to_string()),
+        ("inc_long.a2l", format!("{}{}{}", meas("l1", "a rather long description é of the first"), meas("l2", "second 😀"), meas("l3", "third element of the long file"))),
+        ("inc_nest.a2l", format!("{}/include inc_short.a2l\n{}", meas("n1", "x"), meas("n2", "y"))),
+        ("inc_nest2.a2l", format!("/include \"inc_nest.a2l\"\n{}", meas("nn", "two levels"))),
+        ("inc_empty.a2l", String::new()),
+        ("inc_self.a2l", "/include inc_self.a2l\n".to_string()),
+        ("inc_bad.a2l", "/begin MEASUREMENT trunc \"".to_string()),
+        ("inc_ifdata.a2l", "/begin IF_DATA Z /begin Q 1 0x2 /end Q 2.5 \"s\"\n/end IF_DATA\n".to_string()),
+        ("inc_tail.a2l", format!("{}/include inc_long.a2l", meas("t1", "include directive is the last token"))),
+    ]
 }
 
 /// returns Err(panic text) if the call panicked; Ok(short outcome) otherwise
@@ -403,6 +422,52 @@ pub fn families(thorough: bool) -> Vec<Family> {
             configs: two.clone(),
         });
     }
+    // (7) include trees: sequences of inline elements and /include directives (flat, nested, two levels, empty, cyclic,
+    // truncated, missing, include as last token) inside a valid module; the included files are fixed (include_files)
+    {
+        let units: Vec<String> = vec![
+            "/begin MEASUREMENT m@ \"\" UBYTE NO_COMPU_METHOD 0 0 0 255 /end MEASUREMENT".to_string(),
+            "/include inc_short.a2l".to_string(),
+            "/include \"inc_long.a2l\"".to_string(),
+            "/include inc_nest.a2l".to_string(),
+            "/include \"inc_nest2.a2l\"".to_string(),
+            "/include inc_empty.a2l".to_string(),
+            "/include inc_self.a2l".to_string(),
+            "/include inc_bad.a2l".to_string(),
+            "/include inc_ifdata.a2l".to_string(),
+            "/include inc_tail.a2l".to_string(),
+            "/include inc_none.a2l".to_string(),
+        ];
+        let n = units.len();
+        let max_len = if thorough { 4 } else { 3 };
+        let mut count = 0usize;
+        let mut offsets = vec![0usize];
+        let mut pow = 1usize;
+        for _ in 0..=max_len {
+            count += pow;
+            offsets.push(count);
+            pow *= n;
+        }
+        f.push(Family {
+            name: "include trees".into(),
+            count,
+            gen: Box::new(move |mut i| {
+                let mut len = 0;
+                while i >= offsets[len + 1] {
+                    len += 1;
+                }
+                i -= offsets[len];
+                let mut body = String::new();
+                for k in 0..len {
+                    body.push_str(&units[i % n].replace('@', &k.to_string()));
+                    body.push('\n');
+                    i /= n;
+                }
+                format!("ASAP2_VERSION 1 71\n/begin PROJECT p \"\"\n/begin MODULE m \"\"\n{body}/end MODULE\n/end PROJECT\n").into_bytes()
+            }),
+            configs: vec![Config { strict: false, spec: 0, entry: Entry::File }, Config { strict: true, spec: 0, entry: Entry::File }, Config { strict: false, spec: 1, entry: Entry::File }],
+        });
+    }
     // (6) nesting ladder
     f.push(Family {
         name: "nesting ladder".into(),
@@ -565,7 +630,7 @@ pub fn run(tier: &str) -> Run {
         run.nontrivial.insert(i as u64 ^ 0x9E3779B97F4A7C15);
     }
     run.extra.insert("states_note".into(), json!("states counts distinct enumerated inputs (capped at 2e6 in the set, exact number in distinct_inputs)"));
-    run.rule = "exhaustive enumeration per family: all byte strings of length <= 2 and all strings over a 14-byte alphabet (via load on files), all sequences of lexical units up to length k (spaced, unspaced, inside MODULE, inside IF_DATA with A2ML) x {strict} x {a2ml_spec none/valid/invalid} x {load_from_string, load_fragment}, every byte prefix and every single-token deletion/duplication/swap of every carrier and rich document, all A2ML unit sequences up to length k (in-file and as built-in spec), nesting ladder 1..64. Oracle: the call returns (catch_unwind, overflow checks on, 20 s watchdog).".into();
+    run.rule = "exhaustive enumeration per family: all byte strings of length <= 2 and all strings over a 14-byte alphabet (via load on files), all sequences of lexical units up to length k (spaced, unspaced, inside MODULE, inside IF_DATA with A2ML) x {strict} x {a2ml_spec none/valid/invalid} x {load_from_string, load_fragment}, every byte prefix and every single-token deletion/duplication/swap of every carrier and rich document, all A2ML unit sequences up to length k (in-file and as built-in spec), nesting ladder 1..64, include trees (all sequences up to length 3 / 4 over an inline element and ten /include directives - flat, nested, two levels, empty, cyclic, truncated, IF_DATA, include as last token, missing - loaded from files). Oracle: the call returns (catch_unwind, overflow checks on, 20 s watchdog).".into();
     run.assumptions = vec!["stack depth beyond 64 nested blocks and inputs larger than a few hundred bytes are outside the bound".into()];
     run
 }
